@@ -31,6 +31,8 @@ func scenariosFor(prop string, thorough bool) []*scenario {
 		return c20Scenarios(thorough)
 	case "C15":
 		return c15Scenarios(thorough)
+	case "C04":
+		return c04Scenarios(thorough)
 	}
 	return nil
 }
@@ -42,6 +44,10 @@ type recProc struct {
 	coinbase  []bitcoin.Hash32 // block hashes
 	confirms  int
 	failTx    bool
+	// failConfirmAt: block heights whose next ConfirmTx call fails once (a transient error of the
+	// processor); the same for the coinbase call
+	failConfirmAt  map[int]int
+	failCoinbaseAt map[bitcoin.Hash32]int
 }
 
 func (p *recProc) ProcessTx(ctx context.Context, tx *wire.MsgTx) (bool, error) {
@@ -57,6 +63,14 @@ func (p *recProc) UpdateTxChainDepth(ctx context.Context, t bitcoin.Hash32, d ui
 	return nil
 }
 func (p *recProc) ConfirmTx(ctx context.Context, txid bitcoin.Hash32, h int, mp *merkle_proof.MerkleProof) error {
+	if p.failConfirmAt[h] > 0 {
+		p.failConfirmAt[h]--
+		// this attempt at the block fails: it does not count as a processing of the block
+		if n := len(p.coinbase); n > 0 {
+			p.coinbase = p.coinbase[:n-1]
+		}
+		return errors.New("injected transient confirm error")
+	}
 	p.confirms++
 	return nil
 }
@@ -128,7 +142,8 @@ type fakeNode struct {
 	requested  bool
 	handler    bitcoin_reader.HandleBlock
 	onStop     bitcoin_reader.OnStop
-	registered bool // block reader registered ("started" from the canceller's point of view)
+	registered bool // block reader registered
+	called     bool // the handler has been called ("started" from the canceller's point of view)
 	closed     bool // reader closed by a cancel
 
 	handlerCalls int
@@ -156,12 +171,15 @@ func (n *fakeNode) CancelBlockRequest(ctx context.Context, hash bitcoin.Hash32) 
 		return false
 	}
 	if n.registered {
+		// the contract of the real node (CancelBlockRequest): true only if the handler has been called
+		called := n.called
 		n.closed = true
 		n.registered = false
+		n.called = false
 		n.handler = nil
 		n.onStop = nil
-		n.cancelAnswer = append(n.cancelAnswer, true)
-		return true
+		n.cancelAnswer = append(n.cancelAnswer, called)
+		return called
 	}
 	n.handler = nil
 	n.onStop = nil
@@ -192,6 +210,7 @@ func (n *fakeNode) deliverStall(b *testBlock, announced int, dropWhileBusy bool)
 		n.mu.Unlock()
 		return // reader closed before the transaction count could be read: handler never invoked
 	}
+	n.called = true
 	n.mu.Unlock()
 
 	txChannel := make(chan *wire.MsgTx, 1000)
@@ -222,6 +241,7 @@ func (n *fakeNode) deliverStall(b *testBlock, announced int, dropWhileBusy bool)
 	n.mu.Lock()
 	n.requested = false
 	n.registered = false
+	n.called = false
 	n.handler = nil
 	n.onStop = nil
 	n.mu.Unlock()
@@ -268,6 +288,8 @@ func downloaderScenario(c dlConfig) func() func() []string {
 			blk = mkBlock(1, 0)
 		case "ok1":
 			blk = mkBlock(1, 1)
+		case "ok3":
+			blk = mkBlock(1, 3)
 		}
 		requested := blk.hash
 		other := mkBlock(2, 1)
@@ -279,9 +301,12 @@ func downloaderScenario(c dlConfig) func() func() []string {
 		bd.SetCanceller(node.id, node)
 		interrupt := make(chan interface{})
 		var runErr error
+		var runTook time.Duration
 		runReturned := false
 		vsched.GoNamed("run", func() {
+			t0 := vsched.Now()
 			runErr = bd.Run(bg, interrupt)
+			runTook = vsched.Since(t0)
 			runReturned = true
 		})
 		if c.deliver != "none" {
@@ -314,6 +339,11 @@ func downloaderScenario(c dlConfig) func() func() []string {
 			if complete && len(store.order) != 1 {
 				problems = append(problems, fmt.Sprintf("complete-without-processing: Run returned nil but the block was recorded %d times", len(store.order)))
 			}
+			if len(store.order) == 1 && !proc.failTx && proc.confirms != expectedConfirms(blk) {
+				// C04: a block that is recorded as processed has had every relevant transaction confirmed
+				problems = append(problems, fmt.Sprintf("partial-confirmation: the block was recorded as processed (Run returned %s) with %d of %d relevant transactions confirmed",
+					errClass(runErr), proc.confirms, expectedConfirms(blk)))
+			}
 			if len(store.order) > 1 || len(proc.coinbase) > 1 {
 				problems = append(problems, "processed-twice: the block was processed more than once")
 			}
@@ -321,8 +351,11 @@ func downloaderScenario(c dlConfig) func() func() []string {
 				problems = append(problems, "harness: handler invoked twice")
 			}
 			out := "run:" + errClass(runErr)
-			if vsched.LastElapsed() >= 2*time.Minute {
-				out += "/via-timeout"
+			out += "/" + tookClass(runTook)
+			if runTook >= 10*time.Minute {
+				// every stream of this harness ends, so nothing justifies waiting for the cancel-wait or
+				// download fallback timers: a signal was lost
+				problems = append(problems, "run-stalled: Run returned "+errClass(runErr)+" only "+tookClass(runTook)+" (a completion signal was lost)")
 			}
 			label(out)
 			return problems
@@ -330,10 +363,28 @@ func downloaderScenario(c dlConfig) func() func() []string {
 	}
 }
 
+// expectedConfirms: the recording processor marks every transaction of the block relevant, so a
+// block that is recorded as processed has one confirmation per transaction.
+func expectedConfirms(b *testBlock) int { return len(b.txs) }
+
 // deliverUnchecked delivers a block with another hash (the real node never invokes the handler for
 // a hash that was not requested, so this only exercises the downloader's own wrong-block check
 // when the node is asked for hash A and serves a block whose header hashes to B under A's request).
 func (n *fakeNode) deliverUnchecked(b *testBlock, announced int) { n.deliver(b, announced) }
+
+// tookClass buckets the virtual time Run needed: which (if any) of the downloader's own timeouts it
+// ended through.
+func tookClass(d time.Duration) string {
+	switch {
+	case d < 2*time.Minute:
+		return "prompt"
+	case d < 10*time.Minute:
+		return "after-start-timeout-2m"
+	case d < time.Hour:
+		return "after-cancel-wait-10m"
+	}
+	return "after-download-timeout-1h"
+}
 
 func errClass(err error) string {
 	switch {
@@ -366,6 +417,31 @@ func causeIs(err, target error) bool {
 		err = c.Cause()
 	}
 	return false
+}
+
+// c04Scenarios: the confirmation phase of a download against manager Cancel, peer Stop and shutdown
+// (C04's clause "a block recorded as processed has had exactly its relevant transactions confirmed"
+// under interleavings; the sequential content / fault enumeration is blkenum's).
+func c04Scenarios(thorough bool) []*scenario {
+	var r []*scenario
+	for _, d := range []string{"ok2", "ok3"} {
+		for mask := 1; mask < 8; mask++ {
+			c := dlConfig{deliver: d, cancel: mask&1 != 0, stop: mask&2 != 0, interrupt: mask&4 != 0}
+			disturbers := 0
+			for m := mask; m > 0; m >>= 1 {
+				disturbers += m & 1
+			}
+			if disturbers > 2 {
+				continue
+			}
+			bounds := []int{0, 1}
+			if disturbers == 1 || thorough {
+				bounds = []int{0, 1, 2}
+			}
+			r = append(r, &scenario{name: "confirmations/" + c.name(), bounds: bounds, body: downloaderScenario(c), steps: 4000})
+		}
+	}
+	return r
 }
 
 func c16Scenarios(thorough bool) []*scenario {
